@@ -237,7 +237,9 @@ class ChainManager(Manager):
 
     def get_state(self) -> Tuple[CoinState, List[Transaction]]:
         with self.lock:
-            return self.coinstate, self.transaction_pool
+            # a copy: the caller (the miner's thread) reads the list more than once while assembling a block, and the network
+            # thread appends to transaction_pool in place.
+            return self.coinstate, list(self.transaction_pool)
 
     def _cleanup_transaction_pool_for_coinstate(self, coinstate: CoinState) -> None:
         # This is really the simplest (though not most efficient mechanism): simply remove now-invalid transactions from
